@@ -401,6 +401,19 @@ def fresh_defaults(ctx: Ctx, rule: str) -> None:
     ctx.floor(rule, m, 50, "parameter defaults scanned")
 
 
+def callbacks_live_iteration(ctx: Ctx, rule: str) -> None:
+    """__execute_callbacks walks the callback list itself: a callback may register further callbacks (and the lazy result slot inserts into the list right before the walk) -
+    iterating a snapshot drops whatever is added while the walk is under way."""
+    f = ctx.func(f"{C.MSGDEP}.__execute_callbacks")
+    g = ctx.icfg(f)
+    loops = [lp for lp in ast.walk(f.node) if isinstance(lp, (ast.For, ast.AsyncFor))] + [lp for h in C.helper_callees(ctx, f) for lp in ast.walk(h.node) if isinstance(lp, (ast.For, ast.AsyncFor))]
+    its = [C.utext(f, lp.iter, calls="all") for lp in loops if "_callbacks" in C.utext(f, lp.iter, calls="all")]
+    ctx.check(its == ["self._callbacks"], rule, f, "callbacks walked on the live list", "for callback in self._callbacks",
+              f"__execute_callbacks iterates {its or 'nothing'} instead of the list self._callbacks itself: callbacks registered while the walk is under way (by another callback) never run",
+              instance="callbacks: live iteration")
+    del g
+
+
 def lazy_slot_writers(ctx: Ctx, rule: str) -> None:
     """The lazy result slot (the store of the result set last) is written by __init__ (no-op), set_result and set_exception only. Any other writer -
     e.g. an eager action 'clearing' it - makes the result that was set disappear from what the action publishes."""
@@ -458,3 +471,63 @@ def clock_family(ctx: Ctx, rule: str) -> None:
                      node=c, instance=f"{fn.short()}: clock family")
     else:
         ctx.ok(rule, "one clock family", f"{len(sites['local'])} local / {len(sites['utc'])} utc readings")
+
+
+def category_equality(ctx: Ctx, rule: str) -> None:
+    """MessageCategory is a str-Enum: a category may legally arrive as the plain string "DELAYED" (it compares equal to the member). Every decision on a category
+    therefore uses == / != / in - an identity test (`is MessageCategory.NORMAL`) silently treats such a consumer / message as 'some other category'."""
+    n = 0
+    for fn in ctx.prog.iter_functions():
+        for c in ast.walk(fn.node):
+            if isinstance(c, ast.Compare):
+                ops = list(zip(c.ops, [c.left] + c.comparators[:-1], c.comparators))
+                for op, l, r in ops:
+                    if any((dotted(x) or "").startswith("MessageCategory.") for x in (l, r)):
+                        n += 1
+                        ctx.check(not isinstance(op, (ast.Is, ast.IsNot)), rule, fn, f"{unparse(c)[:60]} in {fn.short()}", "category compared by value",
+                                  f"{fn.short()} compares a category by identity (`{unparse(c)[:80]}`): for a consumer / message whose category was given as the equal plain string the test is "
+                                  "false, so the branch meant for that category is skipped (expired messages delivered, a rejected delayed message made deliverable, nack accepted on a dead letter ...)",
+                                  node=c, instance=f"{fn.short()}: {unparse(c)[:50]}")
+    ctx.floor(rule, n, 5, "comparisons with MessageCategory members")
+
+
+_MUTATORS = {"append", "add", "update", "pop", "setdefault", "insert", "extend", "remove", "discard", "clear", "popitem", "put_nowait", "appendleft"}
+
+
+def per_instance_state(ctx: Ctx, rule: str, prefixes: tuple[str, ...], why: str) -> None:
+    """State that methods mutate through `self` is created per instance: a class-body `name = {}` / `[]` / `set()` / `dict()` is ONE object shared by every instance of the class
+    (and of its subclasses), so two brokers / workers / containers would silently read and overwrite each other's entries."""
+    n = 0
+    for cq, c in sorted(ctx.prog.classes.items()):
+        if not cq.startswith(prefixes):
+            continue
+        n += 1
+        for name, val in c.attrs.items():
+            mutable = isinstance(val, (ast.Dict, ast.List, ast.Set, ast.DictComp, ast.ListComp, ast.SetComp)) or (
+                isinstance(val, ast.Call) and dotted(val.func) in ("dict", "list", "set", "defaultdict", "collections.defaultdict", "deque", "collections.deque", "OrderedDict"))
+            if not mutable:
+                continue
+            names = {name, c.mangle(name)}
+            rebound = False
+            writers = []
+            for m in c.methods.values():
+                for x in ast.walk(m.node):
+                    if isinstance(x, (ast.Assign, ast.AnnAssign)) and getattr(x, "value", None) is not None and m.name in ("__init__", "__post_init__"):
+                        for t in (x.targets if isinstance(x, ast.Assign) else [x.target]):
+                            if isinstance(t, ast.Attribute) and dotted(t.value) == "self" and t.attr in names:
+                                rebound = True
+                    tgt = None
+                    if isinstance(x, (ast.Assign, ast.AugAssign, ast.Delete)):
+                        for t in (x.targets if not isinstance(x, ast.AugAssign) else [x.target]):
+                            if isinstance(t, ast.Subscript):
+                                tgt = t.value
+                    elif isinstance(x, ast.Call) and isinstance(x.func, ast.Attribute) and x.func.attr in _MUTATORS:
+                        tgt = x.func.value
+                    while isinstance(tgt, ast.Subscript):
+                        tgt = tgt.value
+                    if isinstance(tgt, ast.Attribute) and dotted(tgt.value) in ("self", "cls") and tgt.attr in names:
+                        writers.append(m)
+            ctx.check(rebound or not writers, rule, c.methods.get("__init__") or next(iter(c.methods.values())), f"{c.name}.{name}: mutable state is per instance", "created in __init__ (or never mutated)",
+                      f"{c.name}.{name} is a class-body {unparse(val)} that {sorted({w.short() for w in writers})[:3]} mutate through self: one object shared by every instance - {why}",
+                      node=val, instance=f"{c.name}.{name} per instance")
+    ctx.floor(rule, n, 3, "classes inspected for shared mutable state")
